@@ -6,7 +6,7 @@ import ast
 import re
 
 from ..cfg import cfg_of
-from ..core import named_args, AnalysisError, call_name, unparse, walk_no_nested
+from ..core import named_args, AnalysisError, call_name, inline_locals, unparse, walk_no_nested
 from ..packs import ecc, fwd, ord_pack
 from ..report import Ctx
 
@@ -92,7 +92,8 @@ def run(ctx: Ctx) -> None:
             ok = m is not None
             extracted += ok
             if m and m.group(1):
-                divs.add(m.group(1))
+                # the divisor is compared by what the name stands for: a local assigned once is its definition (`d = sample_size`)
+                divs.add(unparse(inline_locals(f.node, ast.Name(id=m.group(1), ctx=ast.Load()))))
             ctx.add('C02.R1', f'BIOGEME.calculate_likelihood_and_derivatives:{fld}@{"scaled" if "/" in got else "raw"}', ok, (f.file, call.lineno),
                     f'{fld} = {got}' + ('' if ok else f'; expected the engine slot {rawb[i]}'), f'{fld}={got}')
         if divs:
